@@ -397,6 +397,7 @@ type c19Vector struct {
 	store                             string
 	warnings                          []string
 	rate                              int
+	shortGrace                        bool // --gc-grace-period 20ms: with garbage collection disabled (--gc-frequency=-1s) still nothing is removed
 }
 
 func (v c19Vector) args(dir string) []string {
@@ -407,6 +408,9 @@ func (v c19Vector) args(dir string) []string {
 	}
 	if v.rate > 0 {
 		a = append(a, "--rate-limit", fmt.Sprint(v.rate))
+	}
+	if v.shortGrace {
+		a = append(a, "--gc-grace-period", "20ms")
 	}
 	return a
 }
@@ -428,7 +432,7 @@ func c19CLIProperty(t *rapid.T, st *Stats) {
 	}
 	v := c19Vector{push: rapid.Bool().Draw(t, "push"), del: rapid.Bool().Draw(t, "delete"), blobDel: rapid.Bool().Draw(t, "blobDelete"), referrer: rapid.Bool().Draw(t, "referrer"), ro: rapid.Bool().Draw(t, "storeRO"),
 		store: rapid.SampledFrom([]string{"dir", "dir", "mem"}).Draw(t, "storeType"), warnings: rapid.SampledFrom([][]string{nil, nil, {"first warning"}, {"w one", "w two"}}).Draw(t, "warnings"),
-		rate: rapid.SampledFrom([]int{0, 0, 0, 3}).Draw(t, "rateLimit")}
+		rate: rapid.SampledFrom([]int{0, 0, 0, 3}).Draw(t, "rateLimit"), shortGrace: rapid.IntRange(0, 2).Draw(t, "shortGrace") == 0}
 	sig := rapid.SampledFrom([]syscall.Signal{syscall.SIGTERM, syscall.SIGINT}).Draw(t, "signal")
 	moment := rapid.SampledFrom([]string{"idle", "idle", "during-slow-upload", "during-burst"}).Draw(t, "signalMoment")
 	tmp := mkTemp("c19")
@@ -444,16 +448,27 @@ func c19CLIProperty(t *rapid.T, st *Stats) {
 	}
 	addr := rapid.SampledFrom(addrs).Draw(t, "addr")
 	trace := []string{fmt.Sprintf("olareg serve --addr %s %s ; signal %v %s", addr, strings.Join(v.args("<dir>"), " "), sig, moment)}
-	fail := func(key, f string, a ...any) { Fail(t, st, key, fmt.Sprintf(f, a...), trace, nil) }
-	// pre-existing content, written by an in-process writable server (with the referrers setting of the vector, so
-	// that the layout is marked converted only when the API is on)
+	// the directory was written by a server with the referrers API on (the default) or off, whatever the vector says
+	preReferrer := rapid.IntRange(0, 2).Draw(t, "directoryWrittenWithReferrersAPI") > 0
+	if preReferrer && !v.referrer && avoid("C19/referrers-off-on-converted-layout") {
+		st.Exclude("C19/referrers-off-on-converted-layout: a directory written with the referrers API on is served with it off")
+		preReferrer = false
+	}
+	trace = append(trace, fmt.Sprintf("--dir was written by a server with --api-referrer=%v", preReferrer))
+	fail := func(key, f string, a ...any) {
+		if preReferrer && !v.referrer && key != "process-does-not-start" {
+			key = "referrers-off-on-converted-layout"
+		}
+		Fail(t, st, key, fmt.Sprintf(f, a...), trace, nil)
+	}
+	// pre-existing content, written by an in-process writable server
 	cfg := []byte("{}")
 	cd := dig("sha256", cfg)
 	img, _ := buildImage(mtImage, mtConfig, cd, 2, nil, nil, nil, "", map[string]string{"pre": "1"})
 	imgD := dig("sha256", img)
 	{
 		wc := baseConf(config.StoreDir, dir)
-		wc.API.Referrer.Enabled = bp(v.referrer)
+		wc.API.Referrer.Enabled = bp(preReferrer)
 		w := olareg.New(wc)
 		_ = doReq(w, "POST", "/v2/pre/blobs/uploads/?digest="+cd, cfg, nil)
 		if r := doReq(w, "PUT", "/v2/pre/manifests/v1", img, hdr("Content-Type", mtImage)); r.code != 201 {
@@ -657,4 +672,127 @@ func c19CLIProperty(t *rapid.T, st *Stats) {
 func TestC19CLI(t *testing.T) {
 	st := newStats("TestC19CLI", "C19", c19Rule)
 	rapid.Check(t, func(t *rapid.T) { c19CLIProperty(t, st) })
+}
+
+// ---- "disable garbage collection": olareg serve --gc-frequency with a negative value (serve help; config.ConfigGC.Frequency:
+// "disable gc with a negative value"). The effect to observe: nothing that was uploaded is ever removed by the server
+// itself - not by a ticker, not when a repository leaves the cache after the grace period, not when the server stops.
+
+const c19gRule = "TestC19GC: store (dir 3/4, mem) with GC.Frequency in {-1ns,-1s,-1h}, GracePeriod in {100ms,1h,disabled} and a generated policy (untagged, empty repository, dangling referrers, referrers with subject); content the policy " +
+	"would collect is pushed (unreferenced blob, image pushed by digest, tagged image whose tag is then deleted, artifact whose subject is missing), aged beyond the grace period (hook), then 1-3 of " +
+	"{wait 3.5 grace periods (cache eviction; only with 100 ms), restart on the same directory, traffic on other repositories}; oracle = every blob and manifest acknowledged and not deleted by the client is still served and the " +
+	"set of blob files is unchanged; non-trivial = directory store and at least one restart or eviction wait; distinct = (frequency, grace, policy, triggers)"
+
+func c19GCProperty(t *rapid.T, st *Stats) {
+	dirStore := rapid.IntRange(0, 3).Draw(t, "dirStore") > 0
+	freq := rapid.SampledFrom([]time.Duration{-1, -time.Second, -time.Hour}).Draw(t, "gcFrequency")
+	const shortGrace = 100 * time.Millisecond
+	grace := rapid.SampledFrom([]time.Duration{shortGrace, time.Hour, -1}).Draw(t, "gracePeriod")
+	root := ""
+	kind := config.StoreMem
+	if dirStore {
+		root = mkTemp("c19g")
+		defer os.RemoveAll(root)
+		kind = config.StoreDir
+	}
+	conf := baseConf(kind, root)
+	conf.Storage.GC.Frequency, conf.Storage.GC.GracePeriod = freq, grace
+	pol := [4]bool{rapid.Bool().Draw(t, "untagged"), rapid.Bool().Draw(t, "emptyRepo"), rapid.Bool().Draw(t, "referrersDangling"), rapid.Bool().Draw(t, "referrersWithSubj")}
+	conf.Storage.GC.Untagged, conf.Storage.GC.EmptyRepo, conf.Storage.GC.ReferrersDangling, conf.Storage.GC.ReferrersWithSubj = bp(pol[0]), bp(pol[1]), bp(pol[2]), bp(pol[3])
+	srv := olareg.New(conf)
+	defer func() { _ = srv.Close() }()
+	trace := []string{fmt.Sprintf("dir=%v gcFrequency=%v grace=%v untagged=%v emptyRepo=%v dangling=%v withSubj=%v", dirStore, freq, grace, pol[0], pol[1], pol[2], pol[3])}
+	fail := func(key, f string, a ...any) { Fail(t, st, key, fmt.Sprintf(f, a...), trace, nil) }
+	must := func(r resp, want int, what string) {
+		if r.code != want {
+			if grace == shortGrace {
+				// an upload session lives for one grace period: on a busy machine a request can take longer than 100 ms
+				st.Add("setup-outlived-the-short-grace-period", 1)
+				t.Skip("setup request took longer than the grace period")
+			}
+			t.Fatalf("setup: %s answered %d %s", what, r.code, trunc(r.body, 200))
+		}
+	}
+	// content that a collection under this policy would (partly) remove
+	type item struct{ what, path string }
+	items := []item{}
+	cfg := []byte("{}")
+	cd := dig("sha256", cfg)
+	loose := []byte("a blob nothing refers to")
+	must(doReq(srv, "POST", "/v2/img/blobs/uploads/?digest="+cd, cfg, nil), 201, "config")
+	must(doReq(srv, "POST", "/v2/img/blobs/uploads/?digest="+dig("sha256", loose), loose, nil), 201, "loose blob")
+	items = append(items, item{"unreferenced blob", "/v2/img/blobs/" + dig("sha256", loose)}, item{"config blob", "/v2/img/blobs/" + cd})
+	byDigest, _ := buildImage(mtImage, mtConfig, cd, len(cfg), nil, nil, nil, "", map[string]string{"pushed": "by digest"})
+	must(doReq(srv, "PUT", "/v2/img/manifests/"+dig("sha256", byDigest), byDigest, hdr("Content-Type", mtImage)), 201, "image by digest")
+	items = append(items, item{"image pushed by digest", "/v2/img/manifests/" + dig("sha256", byDigest)})
+	tagged, _ := buildImage(mtImage, mtConfig, cd, len(cfg), nil, nil, nil, "", map[string]string{"pushed": "by tag"})
+	must(doReq(srv, "PUT", "/v2/img/manifests/v1", tagged, hdr("Content-Type", mtImage)), 201, "tagged image")
+	must(doReq(srv, "DELETE", "/v2/img/manifests/v1", nil, nil), 202, "tag delete")
+	items = append(items, item{"image whose tag was deleted", "/v2/img/manifests/" + dig("sha256", tagged)})
+	art, _ := buildImage(mtImage, mtConfig, cd, len(cfg), nil, nil, nil, dig("sha256", []byte("a subject that was never pushed")), map[string]string{"artifact": "1"})
+	must(doReq(srv, "PUT", "/v2/img/manifests/"+dig("sha256", art), art, hdr("Content-Type", mtImage)), 201, "artifact with a missing subject")
+	items = append(items, item{"artifact with a missing subject", "/v2/img/manifests/" + dig("sha256", art)})
+	// a repository that only ever held a blob (a collection with EmptyRepo would remove what is left of it)
+	must(doReq(srv, "POST", "/v2/lonely/blobs/uploads/?digest="+dig("sha256", loose), loose, nil), 201, "blob in a second repository")
+	items = append(items, item{"blob in a repository without manifests", "/v2/lonely/blobs/" + dig("sha256", loose)})
+	for _, rn := range []string{"img", "lonely"} {
+		if err := srv.VerifAgeBlobs(rn, 3*time.Hour); err != nil {
+			t.Fatalf("ageing: %v", err)
+		}
+	}
+	blobsBefore := map[string][]string{}
+	for _, rn := range []string{"img", "lonely"} {
+		blobsBefore[rn], _ = srv.VerifBlobList(rn)
+	}
+	nTrig := rapid.IntRange(1, 3).Draw(t, "triggers")
+	strong := false
+	trigs := ""
+	for i := 0; i < nTrig; i++ {
+		tr := rapid.SampledFrom([]string{"wait", "restart", "traffic"}).Draw(t, "trigger")
+		if tr == "restart" && !dirStore {
+			tr = "wait"
+		}
+		trigs += tr + ","
+		switch tr {
+		case "wait":
+			if grace != shortGrace {
+				trigs += "(nothing to wait for),"
+				continue
+			}
+			w := 350 * time.Millisecond
+			trace = append(trace, fmt.Sprintf("wait %v (the repository cache keeps an unused repository for one grace period)", w))
+			time.Sleep(w)
+			strong = true
+		case "restart":
+			trace = append(trace, "Close, New on the same directory")
+			_ = srv.Close()
+			srv = olareg.New(conf)
+			strong = true
+		case "traffic":
+			trace = append(trace, "requests on three other repositories")
+			for j := 0; j < 3; j++ {
+				_ = doReq(srv, "GET", fmt.Sprintf("/v2/other%d/tags/list", j), nil, nil)
+			}
+		}
+	}
+	for _, it := range items {
+		if r := doReq(srv, "GET", it.path, nil, hdr("Accept", acceptAll)); r.code != 200 {
+			fail("gc-disabled-still-collects", "GC.Frequency=%v disables garbage collection, yet the %s (%s) answers %d after {%s}", freq, it.what, it.path, r.code, trigs)
+		}
+	}
+	for _, rn := range []string{"img", "lonely"} {
+		after, err := srv.VerifBlobList(rn)
+		if err != nil {
+			fail("gc-disabled-still-collects", "GC.Frequency=%v: repository %s cannot be listed after {%s}: %v", freq, rn, trigs, err)
+		}
+		if fmt.Sprint(after) != fmt.Sprint(blobsBefore[rn]) {
+			fail("gc-disabled-still-collects", "GC.Frequency=%v disables garbage collection, yet the blobs of %s changed after {%s}:\nbefore %v\nafter  %v", freq, rn, trigs, blobsBefore[rn], after)
+		}
+	}
+	st.Case(trace, dirStore && strong, fmt.Sprintf("freq:%v", freq), fmt.Sprintf("grace:%v", grace), "triggers:"+trigs)
+}
+
+func TestC19GC(t *testing.T) {
+	st := newStats("TestC19GC", "C19", c19gRule)
+	rapid.Check(t, func(t *rapid.T) { c19GCProperty(t, st) })
 }
